@@ -44,6 +44,6 @@ theorem InvD.pres_d1 {cfg : Cfg} {s s' : State} {l : Label} (hB : InvB s) (hC : 
   all_goals (try subst_vars)
   all_goals (try dsimp only)
   all_goals (grind [upd, Root.kind, TS.active, TS.live, TS.ended, TS.isStopping, failTS, cancelSubs,
-    cancelRoots, Pend.ts, scBeforeCleanup, scLate, scEarly, stoppingPhase, G, grace])
+    cancelRoots, cancelRootsV, Pend.ts, scBeforeCleanup, scLate, scEarly, stoppingPhase, G, grace])
 
 end Kopf.C20
